@@ -1889,6 +1889,11 @@ def remove_dead_ifs(source: str) -> str:
             yield node, node.body if value else node.orelse
 
         if isinstance(node, ast.If):
+            if core.get_code(node, source).startswith("elif"):
+                # The body of an elif cannot take the place of the elif, it would no longer be
+                # skipped when an earlier branch is taken.
+                continue
+
             # Both body and orelse are dead => node is dead
             if value and not node.body:
                 yield node, None
